@@ -22,7 +22,8 @@ THOROUGH_N = 24000
 QUICK_BUDGET_S = 75
 THOROUGH_BUDGET_S = 900
 RULE = ("17 conversion entry points x source charts of 1-3 maps (0-7 hits / holds / tempo points / SVs each, dyadic "
-        "times, 3K-9K incl. key counts Quaver / StepMania have no mode for) x keyword arguments of the public API "
+        "times; SV multipliers, tempos, lengths and shifts over the whole range an in-memory chart allows: 0, negative, "
+        "1e-4..1e-2, 10..1e5; 3K-9K incl. key counts Quaver / StepMania have no mode for) x keyword arguments of the public API "
         "(raise_bad_mode omitted/True/False, move_right_by) x operation histories of 0-4 steps drawn from {read, filter, column filter, reverse sort, "
         "append, stack offset/column/loc edit, rate, deepcopy, slice} x shift argument in {-1,0,1,2,omitted}; "
         "non-trivial = the history leaves at least one list with labels other than 0..n-1 or the chart has >=2 "
@@ -70,11 +71,21 @@ def src_game(conv):
 
 def gen_num(rng, lo=0, hi=4000):
     r = rng.random()
-    if r < 0.6:
+    if r < 0.55:
         return rng.randrange(lo, hi)
-    if r < 0.9:
+    if r < 0.85:
         return [rng.randrange(lo * 8, hi * 8), 8]
-    return -rng.randrange(0, 500)
+    if r < 0.95:
+        return -rng.randrange(0, 500)
+    return rng.choice([10 ** 7, [1, 1024], -10 ** 6, [10 ** 9 + 1, 64]])
+
+
+# the whole range an in-memory chart allows, not only what a game would accept: 0, negatives, tiny, huge
+SV_MULTS = [1, 0.5, 2, 1.25, 0.75, 0, -1, [-1, 2], [1, 10000], [1, 1024], [5, 1000], [1, 100], 10, [101, 10], 100,
+            10000, 12.5, -100]
+BPMS = [60, 120, 150, 200, 187.5, 90, 120, 150, [1, 1000], [1, 8], 0, -120, 1000, 100000, [999999, 10]]
+LENGTHS = [1, 50, 125, [25, 2], 1000, 0, -50, [1, 1024], 100000, [-1, 4]]
+SHIFTS = [None, -1, 0, 1, 2, 10, -3]
 
 
 def gen_map(rng, game, keys, small=False):
@@ -83,10 +94,10 @@ def gen_map(rng, game, keys, small=False):
     if nh + nl == 0:
         nh = 1
     m = dict(hits=[[gen_num(rng), rng.randrange(keys)] for _ in range(nh)],
-             holds=[[gen_num(rng), rng.randrange(keys), rng.choice([1, 50, 125, [25, 2], 1000])] for _ in range(nl)],
-             bpms=[[gen_num(rng, 0, 2000) if i else 0, rng.choice([60, 120, 150, 200, 187.5, 90])] for i in range(nb)])
+             holds=[[gen_num(rng), rng.randrange(keys), rng.choice(LENGTHS)] for _ in range(nl)],
+             bpms=[[gen_num(rng, 0, 2000) if i else 0, rng.choice(BPMS)] for i in range(nb)])
     if game in ("osu", "qua"):
-        m["svs"] = [[gen_num(rng), rng.choice([1, 0.5, 2, 1.25, 0.75])] for _ in range(rng.randint(0, 4))]
+        m["svs"] = [[gen_num(rng), rng.choice(SV_MULTS)] for _ in range(rng.randint(0, 4))]
     m["meta"] = gen_meta(rng, game, keys, per_map=True)
     return m
 
@@ -160,7 +171,7 @@ def gen(rng, tier, i):
                 rbm=(rng.choice([None, True, False, False]) if conv in HAS_RBM else None),
                 setmeta=gen_meta(rng, game, keys, per_map=False) if multi else {},
                 history=gen_history(rng, game, nmaps),
-                shift=(rng.choice([None, -1, 0, 1, 2]) if conv in HAS_SHIFT else None))
+                shift=(rng.choice(SHIFTS) if conv in HAS_SHIFT else None))
     return case
 
 
@@ -230,6 +241,17 @@ def corpus():
     c.append(dict(claim="convert", conv="OsuToBMS.convert", keys=4, base="objects",
                   maps=[m("osu", [[0, 0]], [[250, 2, 125]], [[0, 120]], [], title="\u65e5\u672c\u8a9e:1", artist=" a;b ", version="#7")],
                   setmeta={}, history=[], shift=None))
+    # numeric values outside what a game would accept: 0x / negative / tiny / huge SVs and tempos, 0 / negative lengths
+    wild_svs = [[0, 0], [100, -1], [200, [1, 10000]], [300, 100], [400, [5, 1000]], [500, 10000]]
+    c.append(dict(claim="convert", conv="QuaToOsu.convert", keys=4, base="objects",
+                  maps=[m("qua", [[0, 0]], [[250, 2, 0], [300, 1, -50]], [[0, 0], [100, -120], [200, [1, 1000]], [300, 100000]], wild_svs)],
+                  setmeta={}, history=[], shift=None))
+    c.append(dict(claim="convert", conv="OsuToQua.convert", keys=4, base="objects",
+                  maps=[m("osu", [[-1000000, 0]], [[250, 2, [1, 1024]]], [[0, [1, 8]]], wild_svs)],
+                  setmeta={}, history=[dict(op="rate", map=0, list="hits", by=[1, 2])], shift=None, rbm=False))
+    c.append(dict(claim="convert", conv="QuaToBMS.convert", keys=4, base="objects",
+                  maps=[m("qua", [[0, 0], [10, 3]], [[250, 2, 100000]], [[0, 120]], wild_svs)],
+                  setmeta={}, history=[], shift=-3))
     # keyword arguments: key counts the target has no mode for
     sm6 = m("sm", [[0, 5], [100, 2]], [[300, 0, 50]], [[0, 150]], difficulty="Hard", difficulty_val=9, chart_type="dance-solo")
     sm7 = m("sm", [[50, 6]], [], [[0, 150]], difficulty="Challenge", difficulty_val=12, chart_type="kb7-single")
@@ -307,7 +329,7 @@ def valid(case):
                 if len(r) != 3 or not _isnum(r[0]) or not isinstance(r[1], int) or not 0 <= r[1] < 10 or not _isnum(r[2]):
                     return False
             for r in m["bpms"]:
-                if len(r) != 2 or not _isnum(r[0]) or not _isnum(r[1]) or F(R(num(r[1]))) <= 0:
+                if len(r) != 2 or not _isnum(r[0]) or not _isnum(r[1]):
                     return False
             if (game in ("osu", "qua")) != ("svs" in m):
                 return False
